@@ -235,6 +235,39 @@ def judge_views(version):
     return out
 
 
+SPELLINGS = [("int", int), ("float", float), ("numpy int", np.int64), ("padded string", lambda v: f" {v} "), ("bytes", lambda v: str(v).encode())]
+
+
+def judge_version_spellings(version):
+    """a table version given in another spelling than the plain string is refused (by the configuration or when the
+    table is looked up) or samples from that version's table: the energies for owned uniform numbers are those of the
+    sampler configured with the plain string"""
+    from nuspacesim.config import NssConfig, Simulation
+    from nuspacesim.simulation.taus.taus import Taus
+
+    T = TR.load(version)
+    lax, bax = T["cdf_axes"]["log_e_nu"], T["cdf_axes"]["beta_rad"]
+    le = np.array([lax[0], 0.5 * (lax[3] + lax[4]), lax[len(lax) // 2], lax[-1]] * 3)
+    b = np.repeat([bax[0], 0.5 * (bax[5] + bax[6]), bax[-1]], 4)
+    u = (np.arange(12) + 0.5) / 12.0
+    want = np.asarray(taus(version).tau_energy(b.copy(), le.copy(), u.copy()), dtype=np.float64)
+    out, n = [], 0
+    for name, f in SPELLINGS:
+        try:
+            t = Taus(NssConfig(simulation=Simulation(tau_shower=Simulation.NuPyPropShower(table_version=f(version)))))
+        except Exception:
+            continue
+        n += 1
+        try:
+            got = np.asarray(t.tau_energy(b.copy(), le.copy(), u.copy()), dtype=np.float64)
+            ok = got.shape == want.shape and bool(np.all(got == want))
+        except Exception as ex:
+            got, ok = f"{type(ex).__name__}: {str(ex)[:80]}", False
+        if not ok:
+            out.append(("version_label_means_its_table", f"table_version={f(version)!r} ({name}) accepted: the energies of table {version}, {want[:3].tolist()}", got[:3].tolist() if isinstance(got, np.ndarray) else got))
+    return out, n
+
+
 def judge_rejected(version, le):
     for via in ("tau_energy", "sampler"):
         t = taus(version)
@@ -257,6 +290,12 @@ def run(ctx):
     # wiring: the run's stored columns are this stage applied to the run's stored columns (see nssmc/pipeline.py)
     pipeline.run_in(ctx, ['taus'], ('A', 'C'), plots=['taus_histogram', 'taus_density_beta'])
     tier = ctx.tier
+    for ver in (1, 2, 3):
+        v, n = judge_version_spellings(ver)
+        ctx.tick(len(SPELLINGS), ("version_spellings", ver))
+        ctx.cov["version_spellings_accepted"] = ctx.cov.get("version_spellings_accepted", 0) + n
+        for c, e, o in v:
+            ctx.violation(c, {"kind": "version_spellings", "version": ver}, e, o)
     for ver in (3, 1, 2):
         T = TR.load(ver)
         lax = T["cdf_axes"]["log_e_nu"]
@@ -382,6 +421,8 @@ def replay(case):
 
         return pipeline.replay(case)
     k = case["kind"]
+    if k == "version_spellings":
+        return judge_version_spellings(case["version"])[0]
     if k == "sample":
         v, _ = judge_sampler(case["version"], case["le"], case["b"], case["u"], via=case["via"])
         return [(c, e, o) for c, i, e, o in v]
